@@ -278,3 +278,125 @@ def https_redirect(kind: int, ri: int, qi: int, roi: int, hi: int, cfg: bool, ex
     ok = ok and len(sent) == 2 and sent[0]["type"] == pre + "http.response.start" and sent[0]["status"] == 307
     ok = ok and sent[0]["headers"] == [(b"location", want.encode())] and sent[1]["type"] == pre + "http.response.body"
     return done(ok, kind=kind, raw=raw, qs=qs, root=root, host=host)
+
+
+# ------------------------------------------------------------------ Dispatcher lifespan fan-out (both flavours)
+
+
+def _mount_app(completes_startup: bool, completes_shutdown: bool, log: list, name: str):
+    async def app(scope, receive, send):
+        if scope["type"] != "lifespan":
+            return
+        while True:
+            m = await receive()
+            log.append((name, m["type"]))
+            if m["type"] == "lifespan.startup":
+                if completes_startup:
+                    await send({"type": "lifespan.startup.complete"})
+            elif m["type"] == "lifespan.shutdown":
+                if completes_shutdown:
+                    await send({"type": "lifespan.shutdown.complete"})
+                return
+
+    return app
+
+
+@harness(
+    "C20",
+    dom={"flavour": (0, 1), "k": (1, 3), "s0": "bool", "s1": "bool", "s2": "bool", "d0": "bool", "d1": "bool", "d2": "bool"},
+    split={"flavour": "each", "k": "each"},
+    witnesses=[{"flavour": 0, "k": 2, "s0": True, "s1": True, "s2": True, "d0": True, "d1": False, "d2": True}, {"flavour": 1, "k": 3, "s0": True, "s1": False, "s2": True, "d0": True, "d1": True, "d2": True}],
+    budget=120,
+    per_path=120,
+    bounds="Asyncio/Trio DispatcherMiddleware lifespan fan-out over 1..3 mounts, each mount completing startup or not and shutdown or not: the aggregate complete message is forwarded exactly when every mount has completed, and every mount receives both lifespan messages",
+    encodes=["hypercorn/middleware/dispatcher.py::AsyncioDispatcherMiddleware._handle_lifespan", "hypercorn/middleware/dispatcher.py::AsyncioDispatcherMiddleware.send",
+             "hypercorn/middleware/dispatcher.py::TrioDispatcherMiddleware._handle_lifespan", "hypercorn/middleware/dispatcher.py::TrioDispatcherMiddleware.send"],
+    stubs=["asyncio flavour on the virtual loop, trio flavour under trio.run with a MockClock; the server side of the lifespan protocol is a scripted receive()"],
+)
+def dispatcher_lifespan(flavour: int, k: int, s0: bool, s1: bool, s2: bool, d0: bool, d1: bool, d2: bool) -> bool:
+    """
+    pre: DOM(dispatcher_lifespan, flavour=flavour, k=k, s0=s0, s1=s1, s2=s2, d0=d0, d1=d1, d2=d2)
+    post: _
+    """
+    enter()
+    from hypercorn.middleware.dispatcher import AsyncioDispatcherMiddleware, TrioDispatcherMiddleware
+
+    flavour = conc(flavour, 0, 1)
+    k = conc(k, 1, 3)
+    st = [True if x else False for x in (s0, s1, s2)][:k]
+    sd = [True if x else False for x in (d0, d1, d2)][:k]
+    log = []
+    mounts = {"/m%d" % i: _mount_app(st[i], sd[i], log, "/m%d" % i) for i in range(k)}
+    sent = []
+    scope = {"type": "lifespan", "asgi": {}, "state": {}}
+    script = [{"type": "lifespan.startup"}, {"type": "lifespan.shutdown"}]
+    finished = {"v": False}
+    if flavour == 0:
+        import asyncio
+
+        from vf.stubs.vloop import VLoop
+
+        loop = VLoop()
+
+        async def main():
+            q = asyncio.Queue()
+            for m in script:
+                q.put_nowait(m)
+
+            async def receive():
+                if q.empty():
+                    await asyncio.sleep(1000)
+                m = q.get_nowait()
+                await asyncio.sleep(0.1)
+                return m
+
+            async def send(m):
+                sent.append(m["type"])
+
+            await AsyncioDispatcherMiddleware(mounts)(scope, receive, send)
+            finished["v"] = True
+
+        t = loop.create_task(main())
+        loop.run_until(50.0)
+        if t.done() and not t.cancelled() and t.exception() is not None:
+            exc = t.exception()
+            loop.shutdown()
+            return done(False, why="middleware raised %r" % (exc,))
+        t.cancel()
+        loop.run_until(51.0)
+        loop.shutdown()
+    else:
+        import trio
+        import trio.testing
+
+        from vf.stubs.tsess import install_trio_determinism
+
+        install_trio_determinism()
+
+        async def main():
+            msgs = list(script)
+
+            async def receive():
+                if not msgs:
+                    await trio.sleep(1000)
+                await trio.sleep(0.1)
+                return msgs.pop(0)
+
+            async def send(m):
+                sent.append(m["type"])
+
+            with trio.move_on_after(50):
+                await TrioDispatcherMiddleware(mounts)(scope, receive, send)
+                finished["v"] = True
+
+        trio.run(main, clock=trio.testing.MockClock(autojump_threshold=0))
+    want = []
+    if all(st):
+        want.append("lifespan.startup.complete")
+    if all(sd):
+        want.append("lifespan.shutdown.complete")
+    ok = sent == want
+    for i in range(k):
+        got = [t for n, t in log if n == "/m%d" % i]
+        ok = ok and got == ["lifespan.startup", "lifespan.shutdown"]
+    return done(ok, flavour=["asyncio", "trio"][flavour], startup=st, shutdown=sd, sent=sent)
